@@ -466,6 +466,8 @@ def failing_columns(n, judge):
 
 def norm_msg(m):
     import re
+    # the visitor's panic prints the whole acceptor: keep its type only
+    m = re.sub(r"(Found a `\w+` state for Acceptor: )(\w+).*?( @[\w/.]+)?$", r"\1\2 ..\3", m, flags=re.S)
     m = re.sub(r'\\?"[^"\\]*\\?"', "<s>", m)
     m = re.sub(r"\b(map|reduce|join|set|field|table|relation|values|left_)_[a-z0-9_]{4}\b", "<name>", m)
     m = re.sub(r"\d+", "N", m)
